@@ -14,9 +14,10 @@ import (
 
 // X executes function bodies symbolically.
 type X struct {
-	c    *Ctx
-	prog *Program
-	qn   int
+	c        *Ctx
+	prog     *Program
+	qn       int
+	revealed map[string]bool // opaque spec functions expanded in this function
 }
 
 type Target struct {
@@ -261,7 +262,12 @@ func (x *X) lenOf(st *State, v Value) Value {
 			return scalar(tInt, App("str_len", SBV(64), v.S()))
 		}
 	case *types.Map:
-		return scalar(tInt, Select(x.c.heap(st, "M!"+typeKey(v.T)+"!len", SArr(SRef, SBV(64))), v.S()))
+		ln := Select(x.c.heap(st, "M!"+typeKey(v.T)+"!len", SArr(SRef, SBV(64))), v.S())
+		if !ln.Bound {
+			// type invariant of Go maps: 0 <= len (and below the standing size bound)
+			x.c.assume(TTrue, bvcmp("bvule", ln, sliceMax))
+		}
+		return scalar(tInt, ln)
 	case *types.Pointer:
 		if a, ok := u.Elem().Underlying().(*types.Array); ok {
 			return constValue(constant.MakeInt64(a.Len()), tInt)
